@@ -11,8 +11,11 @@
                         height is smaller than the one asked for)
     dropped_step_spec   one `commit` iteration of `SetStableBlock`: the dropped-block list, as a SET, is exactly the
                         unconfirmed blocks that are neither the committed block nor its strict descendants
-    dropped_spec        `SetStableBlock` of any depth: the dropped-block list, as a set, is exactly the unconfirmed blocks
-                        that neither survive nor were committed
+                        (there is NO theorem for a `SetStableBlock` of depth > 1 as a whole: the multi-level dropped list is
+                        characterised per commit iteration only)
+    `isExist_spec`: only the first disjunct (`URel.live_iff`: unconfirmed in the model ⇔ unconfirmed in the abstract tree) is
+    content; the second disjunct is the model's OWN `committed` list on both sides of the ⇔ — nothing here characterises
+    `committed` (e.g. "exactly the blocks on stabilised paths, never dropped ones"); that list is tied by the dumps only.
   The ORDER of the dropped list / of the iteration (pre-order, children in insertion order) is what the model computes
   and what the correspondence compares; it is not specified by a theorem.
 -/
@@ -231,7 +234,8 @@ theorem commitOne_rm {u u' : St} {b : Blk} {rm : List Nat} (h : commitOne u b = 
     subst h1
     exact ⟨rfl, rfl⟩
 
-/-- **dropped_step_spec**: one `commit` iteration (the committed block `b` is a child of the stable block): the
+/-- **dropped_step_spec**: one `commit` iteration on ANY block `b` with an unconfirmed label (the statement does not ask
+    `b` to be a child of the stable block, although `SetStableBlock` only ever commits such a child): the
     dropped-block list is, as a set, the unconfirmed blocks that are neither `b` nor strict descendants of `b` -/
 theorem dropped_step_spec {u u' : St} {a : ASt} (hr : URel E u a) {b : Blk} {ab : ABlk}
     (hab : findB a.blocks b.label = some ab) {rm : List Nat} (hc : commitOne u b = .ok (u', rm)) (x : Nat) :
